@@ -197,6 +197,12 @@ def shrink_history(sc):
     import copy
 
     cfg, f = sc['config'], sc['faults']
+    if f.get('estimates', {}).get('excursions'):
+        ex = f['estimates']['excursions']
+        for i in range(len(ex) - 1, -1, -1):
+            s2 = copy.deepcopy(sc)
+            del s2['faults']['estimates']['excursions'][i]
+            yield s2
     for key in ('restarts', 'dtnew', 'soft'):
         lst = f.get(key, [])
         if len(lst) > 4:
@@ -235,6 +241,8 @@ def shrink_history(sc):
             s2['config']['P'] = newP
             for key in ('restarts', 'dtnew'):
                 s2['faults'][key] = [e for e in f.get(key, []) if e[1] < newP]
+            if f.get('estimates'):
+                s2['faults']['estimates']['excursions'] = [e for e in f['estimates'].get('excursions', []) if e[1] < newP]
             s2['faults']['soft'] = [e for e in f.get('soft', []) if e['slot'] < newP]
             if 'verdicts' in f:
                 s2['faults']['verdicts'] = {'default': f['verdicts'].get('default'), 'table': [e for e in f['verdicts']['table'] if e[0][1] < newP]}
@@ -267,3 +275,76 @@ def shrink_history(sc):
         s2 = copy.deepcopy(sc)
         s2['config']['run']['u0'] = 'ones'
         yield s2
+
+
+# ---------------------------------------------------------------------------------------------------------- C09 part A
+def c09_injected(r, hooks=()):
+    """Real Adaptivity + limiters + BasicRestarting + SpreadStepSizes on stub physics; error estimates from a script with
+    a physical background c*dt^(order+1) (so that a smaller step really has a smaller estimate) and injected excursions."""
+    P = r.randint(1, 4)
+    K = r.randint(1, 4)
+    dt0 = r.choice([0.1, 0.125, 0.05, 0.2, 0.3])
+    nsteps = r.randint(2, 24)
+    t0 = r.choice([0.0, 0.0, 0.0, 1.0, -2.5])
+    nlevels = r.choice([1, 1, 1, 2])
+    cfg = stub_config(P, nlevels, K, predict=None if nlevels == 1 else r.choice([None, 'fine_only']), jac=False, dt=dt0, restol=-1.0)
+    cfg['run'] = {'t0': t0, 'Tend': t0 + nsteps * dt0 * r.choice([1.0, 1.0, 0.93, 1.37]), 'u0': 'ones'}
+    cfg['hooks'] = list(hooks)
+    c = 10 ** r.uniform(-1, 1)
+    e_ref = c * dt0 ** (K + 1)
+    e_tol = e_ref * r.choice([0.5, 1.0, 2.0, 5.0])
+    ad = {'e_tol': e_tol, 'beta': r.choice([0.5, 0.8, 0.9, 0.95, 0.99])}
+    if r.random() < 0.4:
+        ad['dt_min'] = dt0 * r.choice([0.01, 0.1, 0.5])
+    if r.random() < 0.3:
+        ad['dt_max'] = dt0 * r.choice([1.0, 2.0, 10.0])
+    if r.random() < 0.4:
+        ad['dt_slope_max'] = r.choice([1.2, 2.0, 4.0])
+    if r.random() < 0.4:
+        ad['dt_slope_min'] = r.choice([0.1, 0.3, 0.6])
+    if r.random() < 0.3:
+        ad['dt_rel_min_slope'] = r.choice([0.05, 0.1, 0.3])
+    max_restarts = r.choice([0, 1, 1, 2, 3, 4])
+    br = {
+        'max_restarts': max_restarts,
+        'crash_after_max_restarts': r.random() < 0.5,
+        'restart_from_first_step': r.random() < 0.35,
+    }
+    cc = [['Adaptivity', ad], ['BasicRestartingNonMPI', br]]
+    if r.random() < 0.5:
+        cc.append(['SpreadStepSizesBlockwiseNonMPI', {'overwrite_to_reach_Tend': r.random() < 0.5}])
+    cfg['cc'] = cc
+    maxb = 4 * (nsteps // P + 2) + 10
+    p_exc = r.choice([0.0, 0.03, 0.08, 0.2])
+    exc = []
+    for b in range(maxb):
+        for s in range(P):
+            if r.random() < p_exc:
+                exc.append([b, s, r.choice([3.0, 10.0, 50.0, 1e3, 'tie'])])
+    if r.random() < 0.3:
+        # a run of consecutive failures of the same step, possibly longer than the retry budget
+        b0, s0 = r.randrange(max(maxb // 4, 1)), r.randrange(P)
+        for j in range(r.randint(1, max_restarts + 2)):
+            exc.append([b0 + j, s0 if j == 0 or br['restart_from_first_step'] else 0, r.choice([50.0, 1e3])])
+    seen, uniq = set(), []
+    for e in exc:
+        if (e[0], e[1]) not in seen:
+            seen.add((e[0], e[1]))
+            uniq.append(e)
+    restarts = []
+    if r.random() < 0.25:
+        for b in range(maxb):
+            for s in range(P):
+                if r.random() < 0.04:
+                    restarts.append([b, s])
+    return {
+        'engine': 'blocksim',
+        'config': cfg,
+        'plugins': ['MonFirst', 'InjEstimate', 'MonRaw', 'Inj89', 'MonLim'],
+        'faults': {
+            'estimates': {'seed': r.randrange(1 << 30), 'c': c, 'order': K, 'noise': [0.1, 3.0] if r.random() < 0.7 else [0.5, 1.5], 'e_tol': e_tol, 'excursions': uniq},
+            'restarts': restarts,
+        },
+        'max_events': 150000,
+        'axis_kind': 'adaptive',
+    }
